@@ -38,6 +38,8 @@ def field_writes(ck, mod, f, lo, hi):
                 ext = _extent(f, I.ops[1])
                 if ext and (ext[1] <= lo or ext[0] >= hi):
                     continue
+                if _affine_outside(mod, f, I, lo, hi):
+                    continue
                 raise Broken("%s: store to the PRNG state at a variable offset that may overlap the budget fields (%s)" % (f.name, I.where))
             if o < hi and o + I.get("size") > lo:
                 ws.append((I, "store", o))
@@ -93,6 +95,28 @@ def field_writes(ck, mod, f, lo, hi):
                     continue
                 raise Broken("%s passes a pointer into the PRNG state to %s whose effect on the budget fields is unknown" % (f.name, callee))
     return ws
+
+
+_FB = {}
+
+
+def _affine_outside(mod, f, I, lo, hi):
+    """variable-offset store through the state pointer: is it provably entirely below byte `lo` or at/after byte `hi` of the state
+    (affine offset, bounds from the dominating comparisons - the machinery of R-C06-BOUNDS)?"""
+    from .. import bounds
+    from ..aff import Lin
+    key = (id(mod), f.name)
+    if key not in _FB:
+        _FB[key] = bounds.FnBounds(mod, f)
+    fb = _FB[key]
+    lin = fb.A.value(tuple(I.ops[1]))
+    base, off = fb.base_and_offset(lin)
+    if base != ("a", 0):
+        return False
+    size = I.get("size") or 1
+    below = fb.prove_nonneg_cases(off, I.b) and fb.prove_nonneg_cases(Lin.const(lo - size).add(off, -1), I.b)
+    above = fb.prove_nonneg_cases(off.add(Lin.const(-hi)), I.b)
+    return bool(below or above)
 
 
 def _extent(f, v):
